@@ -74,7 +74,7 @@ def r1(ctx):
     if not ctx.check(isinstance(lp, ast.For), fi, "rounds are driven by a for loop (bounded), not a while loop", line=lp.lineno,
                      role="loop:kind", expected="for _ in range(iteration_limit)", found=type(lp).__name__):
         return
-    b = ana.builder(fi, no_inline=lambda f: True)
+    b = ana.builder(fi, no_inline=ana.known)
     rng = b.loop_range(lp)
     ok = False
     found = unparse(lp.iter)
@@ -155,7 +155,7 @@ def r2(ctx):
               line=nodes["repopulate"].lineno, role="order:repopulate<statistics",
               expected="repopulate ... statistics within one round", found="statistics can run before repopulation in a round")
     # guard round > 0
-    b = ana.builder(fi, no_inline=lambda f: True)
+    b = ana.builder(fi, no_inline=ana.known)
     g = b.guard_term(nodes["repopulate"], relative_to=ml.body_entry)
     var = None
     if isinstance(ml.loop.target, ast.Name):
